@@ -93,6 +93,7 @@ type actorState struct {
 	dieAfter     *int          // next-die: die as soon as the call is parked
 	shutSeen     bool
 	shutReported bool
+	stalledSide  *Call // a submission on a second connection whose body upload is stalled
 	exitAt       time.Duration
 	exitCode     int
 	exitDue      bool
@@ -235,8 +236,16 @@ func (e *Engine) healthyOp(s *actorState) (Op, bool) {
 			return Op{Kind: "exit", N: 1}, true
 		}
 		if a.st == "pairwait" {
-			// one of two concurrent submissions is still outstanding: the runtime waits for it
+			// one of two concurrent submissions is still outstanding: the runtime waits for it (and lets a stalled
+			// upload continue)
+			if s.stalledSide != nil {
+				return Op{Kind: "resume-side"}, true
+			}
 			return Op{}, false
+		}
+		if s.stalledSide != nil && a.CurReqID != "" && a.CurInv != nil && !strings.Contains(s.stalledSide.Path, a.CurReqID) {
+			// the next invocation has been delivered: the stalled upload for the previous one completes now
+			return Op{Kind: "resume-side"}, true
 		}
 		if len(s.queue) > 0 {
 			op := s.queue[0]
@@ -442,7 +451,24 @@ func (e *Engine) doOp(s *actorState, op Op, scripted bool) {
 		}
 		e.r.NextStep()
 		var side *Call
-		if op.Arg == "error" {
+		if op.Arg == "slow-error" || op.Arg == "slow-response" {
+			// the duplicate's body upload stalls half-way; it is resumed while the runtime waits for its verdict, or -
+			// if the answer on the main connection was accepted meanwhile - after the next invocation was delivered
+			if len(body) < 4 {
+				body = append(body, []byte("-padding-for-a-slow-body")...)
+			}
+			kind, hdr := "response", op.Hdr
+			if op.Arg == "slow-error" {
+				kind, hdr = "error", map[string]string{"Lambda-Runtime-Function-Error-Type": "Function.Race"}
+			}
+			conn := e.r.Dial(RapiAddr)
+			a.P.Attach(conn)
+			side = conn.StartPlan(a.Who+"+", "POST", rtBase+"/invocation/"+id+"/"+kind, hdr, body, len(body)/2)
+			side.Tag = "rt-" + kind + "-dup"
+			a.SideCalls = append(a.SideCalls, side)
+			s.stalledSide = side
+			e.r.Fault("slow-body-submission")
+		} else if op.Arg == "error" {
 			side = a.SideStart("rt-error-dup", "POST", rtBase+"/invocation/"+id+"/error", map[string]string{"Lambda-Runtime-Function-Error-Type": "Function.Race"}, body)
 		} else {
 			side = a.SideStart("rt-response-dup", "POST", rtBase+"/invocation/"+id+"/response", op.Hdr, body)
@@ -450,6 +476,14 @@ func (e *Engine) doOp(s *actorState, op Op, scripted bool) {
 		e.r.Settle() // the duplicate runs until it is answered or held
 		e.r.Fault("concurrent-duplicate-submission")
 		a.ResponseWith(side, id, body, op.Hdr)
+	case "resume-side":
+		if s.stalledSide != nil {
+			e.r.NextStep()
+			s.stalledSide.Resume(true)
+			s.stalledSide = nil
+			e.r.Settle()
+			e.w.absorb()
+		}
 	case "response-die", "error-die":
 		id := e.resolveID(a, op.Arg)
 		if op.Kind == "error-die" {
@@ -557,6 +591,19 @@ func (e *Engine) doOp(s *actorState, op Op, scripted bool) {
 			hdr["Lambda-Extension-Function-Error-Type"] = "X.Y"
 		}
 		a.Raw(method, path, hdr, nil)
+	case "stalled-upload": // sends half of the body of a /response or /error for the current id and then nothing more
+		id := e.resolveID(a, "cur")
+		body := []byte("stalled-upload-body-0123456789-0123456789")
+		hdr := map[string]string{}
+		if op.Arg == "error" {
+			hdr["Lambda-Runtime-Function-Error-Type"] = "Function.Stalled"
+		}
+		e.r.NextStep()
+		a.Cur = a.Conn.StartPlan(a.Who, "POST", rtBase+"/invocation/"+id+"/"+op.Arg, hdr, body, len(body)/2)
+		a.Cur.Tag = "rt-stalled-upload"
+		a.Calls = append(a.Calls, a.Cur)
+		e.r.Settle()
+		e.r.Fault("stalled-body-upload")
 	case "truncated-response": // sends half of the body of a /response for the current id, then the process dies
 		id := e.resolveID(a, op.Arg)
 		body := e.respBody(s, op)
